@@ -12,24 +12,26 @@ PROP = {
     'extra': {'quick': {'random_roles': 30}, 'thorough': {'random_roles': 150}},
     'replay_header': R_HEADER,
     'replay_footer': "Eval vm_compute in (failing agrees base_index cases).\nEval vm_compute in (failing c13_ok base_index cases).",
-    'stats_keys': ['routes', 'roles', 'random_roles', 'http_requests_sent', 'refused_requests_with_state_change', 'timings_s'],
+    'stats_keys': ['routes', 'roles', 'random_roles', 'http_requests_sent', 'refused_requests_with_state_change', 'case_handles', 'testbed_probes', 'timings_s'],
     'assumptions': [
         'a request is "served" when the answer is neither 401 nor 403 (whatever the handler then answers: 200, 400 on the empty JSON body the probe sends, 404 for an unknown child/parent/publisher); "refused" is 401 or 403',
         'authentication itself (password hashing, session tokens, OpenID Connect) is outside C13 (C20): the model starts from the authentication result of authorizer.rs (a role or an error); POST /auth/login, POST /auth/logout and GET /auth/callback (proceed_raw) are listed as public and their answers are not compared',
         'absence of effect on refusal is observed through the API as admin: CA list, publisher list, /stats/cas, and the command history of the addressed CA, compared before and after each refused POST/DELETE',
         'listing endpoints (GET /api/v1/cas, GET /api/v1/bulk/cas/issues) are probed first, in a state where ca1, ca2 (named by the scoped roles) and ca4 (in no role\'s map) each have a standing parent issue, so the filtered answer differs between callers; the CA set shown must equal the CAs of the admin\'s answer that the caller may read (CaRead on the entry)',
+        'a role limited to CAs is checked on the CAs alice, ALICE, Alice and alice2 of one daemon (memory storage, case-sensitive file system for the repository directory): every route under /api/v1/cas/{ca} x each of the four, and both listings, for roles limited to exactly one of them; handles that differ in other ways (Unicode normalisation, percent-encoding) are not probed',
+        'testbed mode: four daemon instances, ta_support_enabled x [testbed] section; a testbed route of an instance without [testbed] must answer 404 and leave the state seen by the admin unchanged (CA list, publisher list, /stats/cas, commands of the CA called testbed). In the two instances without [testbed] the CA called testbed is an ordinary CA without resources, so only the publisher half of the self-service routes could have a visible effect there; the child half is observed by its status',
         'paths are modelled as lists of segments without trailing slash; percent-encoding and trailing-slash tolerance of PathIter are not modelled',
         'handlers whose gate is reached through macros, closures or helper functions other than the recognised Request methods are not supported by the translator: it stops with TranslateError instead of guessing',
     ],
     'trusted_extra': [
-        'translate/t_routes.py (+ rustparse_routes.py): symbolic walk of dispatch/*.rs from dispatch_request; recognised statement shapes listed in its header; shape checks of request.rs / authorizer.rs / roles.rs / permission.rs',
+        'translate/t_routes.py (+ rustparse_routes.py): symbolic walk of dispatch/*.rs from dispatch_request; recognised statement shapes listed in its header; shape checks of request.rs / authorizer.rs / roles.rs / permission.rs / config.rs (testbed_enabled)',
         'hand-written specification table auth/Routes.v spec_routes (no normative route->permission document exists in the repository); its sanity is theorem C13_spec_sane',
         'harness/src/bin/c13.rs: sample values for path parameters (ca1/ca2, child1, parent1, pub1, AS65000, 1), status classification, canonicalisation of JSON answers (sorted keys and arrays)',
     ],
 }
 
 META = {
-    'text': 'Theorems (Coq, closed under the global context) over a model of the HTTP authorisation layer: permissions as a bit mask, roles with a general set, a blanket set and a per-CA map, Role::is_allowed, the route table and the decision authorize. For every role (arbitrary sets and per-CA maps), authentication result and request: served iff every gate of the route is allowed (decision_correct), refusals are 403 for a role and 401 for an authentication error, the entry for the addressed CA takes precedence over the blanket grant, nothing under /api/v1 is served without the login permission, a caller without credentials is served exactly on the listed public roots (testbed endpoints only in testbed mode), listings show exactly the readable CAs; the hand-written specification table is sane (per-CA routes gated on that CA, state-changing routes need a non-read permission of their family) and unambiguous. Tie to the code: the route tree, the permission list, the built-in sets and roles are regenerated from dispatch/*.rs, permission.rs, roles.rs on every run and must equal the specification (gen_routes_conform etc.); every route x method x a battery of roles (built-in, single permission, all-but-one, config-file roles limited to CAs, arbitrary none/any/per-CA maps, no/wrong credentials, Unix-socket peer) is sent over HTTP to the real daemon started in-process with auth_type = config-file, and every answer is checked inside Coq against the model and against the executable form of the property.',
+    'text': 'Theorems (Coq, closed under the global context) over a model of the HTTP authorisation layer: permissions as a bit mask, roles with a general set, a blanket set and a per-CA map, Role::is_allowed, the route table and the decision authorize. For every role (arbitrary sets and per-CA maps), authentication result and request: served iff every gate of the route is allowed (decision_correct), refusals are 403 for a role and 401 for an authentication error, the entry for the addressed CA takes precedence over the blanket grant, nothing under /api/v1 is served without the login permission, a caller without credentials is served exactly on the listed public roots (testbed endpoints only in testbed mode), a role limited to CAs holds its permissions on a CA iff the handle of that CA is literally (same case) in its list, is refused on every per-CA route of any other CA and sees exactly the CAs of its list in the listings, the testbed routes are served iff the [testbed] section is present whatever ta_support_enabled says, listings show exactly the readable CAs; the hand-written specification table is sane (per-CA routes gated on that CA, state-changing routes need a non-read permission of their family) and unambiguous. Tie to the code: the route tree, the permission list, the built-in sets and roles are regenerated from dispatch/*.rs, permission.rs, roles.rs on every run and must equal the specification (gen_routes_conform etc.); every route x method x a battery of roles (built-in, single permission, all-but-one, config-file roles limited to CAs, arbitrary none/any/per-CA maps, no/wrong credentials, Unix-socket peer) is sent over HTTP to the real daemon started in-process with auth_type = config-file, and every answer is checked inside Coq against the model and against the executable form of the property. Scripted in every run: four CAs whose handles differ only in case or by a suffix (alice, ALICE, Alice, alice2) x every per-CA route and listing x roles limited to exactly one of them; four daemon instances (ta_support_enabled x [testbed] section) on which the testbed self-service routes are requested without credentials with effective bodies, a 404 having to leave publishers and children unchanged.',
     'design_ref': 'DESIGN.md section 5 C13, Appendix B',
     'note': 'Trusted: Coq kernel + vm_compute; translator t_routes.py; the hand-written spec_routes table; harness classification of HTTP statuses. Modelled not verified: dispatch/*.rs routing and gates, request.rs check_permission/proceed_*, authorizer.rs AuthInfo::check_permission and provider order, roles.rs, permission.rs. Outside: authentication mechanisms (C20), handler bodies after the hand-over, OpenID Connect provider, percent-decoding of paths.',
     'technique': 'Coq proof over role/route model (all roles, not enumerated) + translator-generated route and permission tables + HTTP correspondence against the in-process daemon evaluated in Coq',
